@@ -65,12 +65,15 @@ struct HHashBig { typedef HashMap<int, Tracked> H; static H make() { H m; for (i
 struct HShared { typedef Shared<Tracked> H; static H make() { return H(new Tracked(9)); } static bool read(const H& h) { return h->ok() && h->v == 9; } static const char* name() { return "Shared<Tracked>"; } };
 struct HSmart { typedef Thing H; static H make() { return Thing(); } static bool read(const H& h) { return h.ok(); } static const char* name() { return "SmartObject class"; } };
 
-enum Op { OP_COPY, OP_ASSIGN, OP_DROP, OP_READ, OP_REACQUIRE, OP_RESET, NOPS };
-static const char* OPN[] = {"copy", "assign", "drop", "read", "reacquire", "reset-by-assigning-an-empty-handle"};
+enum Op { OP_COPY, OP_ASSIGN, OP_DROP, OP_READ, OP_REACQUIRE, OP_RESET, OP_CLONE, NOPS };
+static const char* OPN[] = {"copy", "assign", "drop", "read", "reacquire", "reset-by-assigning-an-empty-handle", "clone-and-drop"};
 
 // the empty / null handle of each kind (a default-constructed smart class is a new object, its null handle is built from a null pointer)
 template<class K> struct EmptyOf { static typename K::H get() { return typename K::H(); } };
 template<> struct EmptyOf<HSmart> { static Thing get() { return Thing((SmartObject_*)0); } };
+// an independent deep copy held by one handle (Shared<T> has no clone(): a second object is made from the first's value)
+template<class K> struct CloneOf { static typename K::H get(const typename K::H& h) { return h.clone(); } };
+template<> struct CloneOf<HShared> { static Shared<Tracked> get(const Shared<Tracked>& h) { return Shared<Tracked>(new Tracked(*h)); } };
 
 // a thread's program over its own handles (it always keeps its seed handle until the end)
 template<class K>
@@ -81,6 +84,12 @@ static void runProgram(const typename K::H& seedHandle, const std::vector<int>& 
 	own.push_back(new H(seedHandle));
 	for (size_t i = 0; i < prog.size(); i++) {
 		int op = prog[i] & 7, arg = prog[i] >> 3;
+#if defined(__SANITIZE_THREAD__)
+		// clone() is not one of the operations the property lists (copy, assign, drop); it is exercised for the
+		// "destroyed exactly once" clause in the ASan / plain builds only: its check-then-act read of the count
+		// (a plain load of a volatile int in dup()) is a formal race for TSan - see DESIGN.md, observations
+		if (op == OP_CLONE) op = OP_COPY;
+#endif
 		switch (op) {
 		case OP_COPY: own.push_back(new H(*own[arg % own.size()])); break;
 		case OP_ASSIGN: { size_t a = arg % own.size(), b = (arg / 7) % own.size(); if (a != b) *own[a] = *own[b]; break; }
@@ -88,6 +97,7 @@ static void runProgram(const typename K::H& seedHandle, const std::vector<int>& 
 		case OP_READ: if (!K::read(*own[arg % own.size()])) (*badRead)++; break;
 		case OP_REACQUIRE: if (own.size() > 1) { delete own.back(); own.back() = new H(seedHandle); } break;
 		case OP_RESET: if (own.size() > 1) { *own.back() = EmptyOf<K>::get(); delete own.back(); own.pop_back(); } break;
+		case OP_CLONE: { H cl = CloneOf<K>::get(*own[arg % own.size()]); if (!K::read(cl)) (*badRead)++; break; }   // the clone's only handle goes away here
 		}
 	}
 	for (size_t i = 0; i < own.size(); i++) delete own[i];
